@@ -174,32 +174,37 @@ Proof.
   rewrite N.lor_spec, H. reflexivity.
 Qed.
 
-Theorem add_range_chk_ok s m a b :
-  a <= b -> b < 2 ^ 16 -> add_range_chk s m a b = Some (add_range_rel s m a b).
+Lemma wsub_reversed x y : x < y -> y < 2 ^ 16 -> 63 <= wsub x y.
 Proof.
-  intros Hab Hb. unfold add_range_chk, add_range_rel.
-  destruct (m =? MAX64); [reflexivity|].
-  set (A := N.shiftr a s). set (B := N.shiftr b s).
-  assert (HAB : A <= B) by (apply shiftr_mono; exact Hab).
-  assert (HB : B < 2 ^ 16) by (apply shiftr_lt_M64; exact Hb).
-  rewrite (wsub_small B A) by lia.
-  unfold csub at 1. destruct (N.leb_spec A B) as [_|Hc]; [|lia].
-  unfold MASK_BITS. change (64 - 1) with 63.
-  destruct (63 <=? B - A) eqn:Hsat; [reflexivity|].
-  apply N.leb_gt in Hsat.
-  rewrite !mask_for_pow2. unfold bitpos. fold A B.
-  assert (HBm : B mod 64 = (A mod 64 + (B - A)) mod 64).
-  { rewrite <- mod_shift. f_equal. lia. }
-  rewrite HBm.
-  pose proof (sweep_chk_use (A mod 64) (B - A) ltac:(apply N.mod_lt; discriminate) Hsat) as Hs.
-  unfold chk_bits in Hs.
-  destruct (cadd (2 ^ ((A mod 64 + (B - A)) mod 64)) (wsub (2 ^ ((A mod 64 + (B - A)) mod 64)) (2 ^ (A mod 64)))) as [t|]; [|discriminate].
-  rewrite Hs. reflexivity.
+  intros Hlt Hy. unfold wsub, M64.
+  assert (H64 : 2 ^ 16 < 2 ^ 64) by (vm_compute; reflexivity).
+  rewrite N.mod_small by lia. lia.
 Qed.
 
-(* a > b (an empty range, e.g. a malformed coverage record): the checked build traps *)
-Lemma add_range_chk_refuted_when_reversed : exists s m a b, b < a /\ add_range_chk s m a b = None.
-Proof. exists 0, 0, 1, 0. split; [reflexivity|vm_compute; reflexivity]. Qed.
+(* the overflow-checked build never traps, for ANY a and b (a > b saturates, like the release build) *)
+Theorem add_range_chk_ok s m a b :
+  a < 2 ^ 16 -> b < 2 ^ 16 -> add_range_chk s m a b = Some (add_range_rel s m a b).
+Proof.
+  intros Ha Hb. unfold add_range_chk, add_range_rel.
+  destruct (m =? MAX64); [reflexivity|].
+  set (A := N.shiftr a s). set (B := N.shiftr b s).
+  assert (HA : A < 2 ^ 16) by (apply shiftr_lt_M64; exact Ha).
+  assert (HB : B < 2 ^ 16) by (apply shiftr_lt_M64; exact Hb).
+  unfold MASK_BITS. change (64 - 1) with 63.
+  destruct (N.le_gt_cases A B) as [HAB|HBA].
+  - rewrite (wsub_small B A) by lia.
+    destruct (63 <=? B - A) eqn:Hsat; [reflexivity|].
+    apply N.leb_gt in Hsat.
+    rewrite !mask_for_pow2. unfold bitpos. fold A B.
+    assert (HBm : B mod 64 = (A mod 64 + (B - A)) mod 64).
+    { rewrite <- mod_shift. f_equal. lia. }
+    rewrite HBm.
+    pose proof (sweep_chk_use (A mod 64) (B - A) ltac:(apply N.mod_lt; discriminate) Hsat) as Hs.
+    unfold chk_bits in Hs.
+    destruct (cadd (2 ^ ((A mod 64 + (B - A)) mod 64)) (wsub (2 ^ ((A mod 64 + (B - A)) mod 64)) (2 ^ (A mod 64)))) as [t|]; [|discriminate].
+    rewrite Hs. reflexivity.
+  - pose proof (wsub_reversed B A HBA HA) as Hw. apply N.leb_le in Hw. rewrite Hw. reflexivity.
+Qed.
 
 Lemma may_have_sound m o p : N.testbit m p = true -> N.testbit o p = true -> may_have m o = true.
 Proof.
@@ -291,7 +296,7 @@ Proof.
   intros x [Hx|[Hax Hxb]]; [apply d_add_range_keeps; auto|apply d_add_range_in; auto].
 Qed.
 
-Lemma d_add_range_chk_ok shifts : forall d a b, a <= b -> b < 2 ^ 16 ->
+Lemma d_add_range_chk_ok shifts : forall d a b, a < 2 ^ 16 -> b < 2 ^ 16 ->
   d_add_range_chk shifts d a b = Some (d_add_range shifts d a b).
 Proof.
   induction shifts as [|s ss IH]; intros [|m ms] a b Hab Hb; cbn; try reflexivity.
